@@ -551,29 +551,63 @@ def unifier_family(em):
     return out
 
 
-def _returns_once(em, g, fam, depth=0):
+def _returns_once(em, g, fam, depth=0, allow_none=False):
     """a plain (non-generator) helper every return of which is an at-most-once iterator: a once/never iterator object, the
-    result of a unifier, or of another such helper (a hook like ``_unify_same_name``)"""
+    result of a unifier, or of another such helper (a hook like ``_unify_same_name``); with allow_none also None"""
     if depth > 3 or g.is_generator:
         return False
     rets = [n for n in own_nodes_ordered(g.node) if isinstance(n, ast.Return)]
     if not rets:
         return False
-    for n in rets:
-        v = n.value
-        if not isinstance(v, ast.Call):
+    return all(_once_value(em, g, n.value, fam, depth, allow_none, n) for n in rets)
+
+
+def _guarded_not_none(ret, name):
+    """the return statement sits in the body of ``if <name> is not None:``"""
+    child = ret
+    for p in parents(ret):
+        if isinstance(p, (ast.FunctionDef, ast.Lambda)):
             return False
-        cs = em.cg.resolve_callable(g, v.func)
-        if not cs:
+        if isinstance(p, ast.If) and any(child is b for b in p.body) and isinstance(p.test, ast.Compare) and len(p.test.ops) == 1 \
+                and isinstance(p.test.ops[0], ast.IsNot) and is_name(p.test.left, name) \
+                and isinstance(p.test.comparators[0], ast.Constant) and p.test.comparators[0].value is None:
+            return True
+        child = p
+    return False
+
+
+def _once_value(em, g, v, fam, depth, allow_none, ret, seen=None):
+    """the value is an at-most-once iterator: produced by a call of a unifier / once-or-never iterator class / helper that
+    returns such values, possibly through locals; None only where the caller discards it (allow_none)"""
+    seen = seen if seen is not None else set()
+    if v is None or (isinstance(v, ast.Constant) and v.value is None):
+        return allow_none
+    if isinstance(v, ast.IfExp):
+        return _once_value(em, g, v.body, fam, depth, allow_none, ret, seen) and _once_value(em, g, v.orelse, fam, depth, allow_none, ret, seen)
+    if isinstance(v, ast.Name):
+        if v.id in seen or v.id in g.all_params:
+            return v.id in seen
+        seen.add(v.id)
+        defs = [s for s in own_nodes_ordered(g.node) if isinstance(s, ast.Assign) and any(is_name(t, v.id) for t in s.targets)]
+        others = [s for s in own_nodes_ordered(g.node) if isinstance(s, ast.Name) and s.id == v.id and isinstance(s.ctx, ast.Store)]
+        if not defs or len(others) != len([t for s in defs for t in s.targets if is_name(t, v.id)]):
             return False
-        for c in cs:
-            if c.name == '__init__' and c.cls is not None:
-                if iterator_class_kind(em, c.cls) not in ('once', 'never'):
-                    return False
-            elif c in fam or (c.cls and c.name == 'unify') or c in em.binder_family():
-                continue
-            elif not _returns_once(em, c, fam, depth + 1):
+        none_ok = allow_none or (ret is not None and _guarded_not_none(ret, v.id))
+        return all(_once_value(em, g, s.value, fam, depth, none_ok, None, seen) for s in defs)
+    if not isinstance(v, ast.Call):
+        return False
+    cs = em.cg.resolve_callable(g, v.func)
+    if not cs:
+        ci = em.cg.constructed_class(g, v)
+        return ci is not None and iterator_class_kind(em, ci) in ('once', 'never')
+    for c in cs:
+        if c.name == '__init__' and c.cls is not None:
+            if iterator_class_kind(em, c.cls) not in ('once', 'never'):
                 return False
+        elif c in fam or (c.cls and c.name == 'unify') or c in em.binder_family():
+            continue
+        elif not _returns_once(em, c, fam, depth + 1, allow_none):
+            return False
     return True
 
 
@@ -605,6 +639,8 @@ def rule_at_most_one_yield(em, rep, rid):
                             rep.ok(rid, key, 'delegates to %s' % ', '.join(sorted({c.qname for c in cs}) or [norm(v.func)]), f.loc(n))
                         else:
                             rep.violation(rid, key, 'returns an iterator that may succeed more than once', f.loc(n))
+                    elif isinstance(v, ast.Name) and _once_value(em, f, v, fam, 0, False, n):
+                        rep.ok(rid, key, 'a local that holds the result of unifier / once-iterator calls on every path', f.loc(n))
                     else:
                         rep.violation(rid, key, 'a unifier returns something that is not an iterator produced by a call', f.loc(n))
             continue
